@@ -24,6 +24,9 @@ pub enum Strategy {
     /// one more): a stream that arrives while several accept calls are pending must reach one of them, and the next stream
     /// one of those still waiting
     Quota { tasks: usize },
+    /// one task that starts accepting only `ms` after the streams were opened (below the transport's idle timeout), then as fast
+    /// as it can: however long a stream waits for the application, it is still delivered
+    InitialPause { ms: u64 },
 }
 
 #[derive(Clone, Debug)]
@@ -49,6 +52,7 @@ impl Sc {
             Strategy::CancelReissue { at, polls } => json!(["cancel_reissue", at, polls]),
             Strategy::CancelAll { polls } => json!(["cancel_all", polls, 0]),
             Strategy::Quota { tasks } => json!(["quota", tasks, 0]),
+            Strategy::InitialPause { ms } => json!(["initial_pause", ms, 0]),
         };
         json!({"raw_opener": self.raw_opener, "acceptor_server": self.acceptor_server, "n": self.n, "pattern": self.pattern, "strategy": st, "limit": self.limit, "sel": self.sel})
     }
@@ -64,6 +68,7 @@ impl Sc {
                 "immediate" => Strategy::Immediate { tasks: a as usize },
                 "delay" => Strategy::Delay { ms: a },
                 "quota" => Strategy::Quota { tasks: a as usize },
+                "initial_pause" => Strategy::InitialPause { ms: a },
                 "cancel_reissue" => Strategy::CancelReissue { at: a as usize, polls: b as usize },
                 _ => Strategy::CancelAll { polls: a as usize },
             },
@@ -245,6 +250,9 @@ pub async fn run(sc: Sc) -> Result<String, String> {
             app_tasks.push(tokio::spawn(async move {
                 let mut call = 0usize;
                 let mut mine = 0usize;
+                if let Strategy::InitialPause { ms } = &strategy {
+                    settle_ms(*ms).await;
+                }
                 loop {
                     {
                         if *counter.lock().unwrap() >= total || mine >= quota {
@@ -380,11 +388,15 @@ pub fn scenarios(tier: Tier) -> Vec<Sc> {
                             strategies.push(Strategy::Quota { tasks });
                         }
                     }
+                    if n >= 3 {
+                        strategies.push(Strategy::InitialPause { ms: 12_000 });
+                        strategies.push(Strategy::InitialPause { ms: 25_000 });
+                    }
                     for polls in 0..4usize {
                         strategies.push(Strategy::CancelAll { polls });
                     }
                     for st in strategies {
-                        if !thorough && n == 9 && !matches!(st, Strategy::Immediate { tasks: 1 } | Strategy::CancelAll { polls: 1 } | Strategy::Quota { tasks: 2 }) {
+                        if !thorough && n == 9 && !matches!(st, Strategy::Immediate { tasks: 1 } | Strategy::CancelAll { polls: 1 } | Strategy::Quota { tasks: 2 } | Strategy::InitialPause { ms: 12_000 }) {
                             continue;
                         }
                         out.push(Sc { raw_opener, acceptor_server, n, pattern, strategy: st, ..base.clone() });
@@ -455,7 +467,7 @@ pub fn run_check(args: &Args) -> i32 {
     let rep = Report::new(
         args,
         "exploration",
-        "scenario = opener (raw peer / wtransport peer) x acceptor role x stream count (1,2,3,5,9; 12 = 3x a concurrent-stream limit of 4) x uni/bidi pattern (4) x acceptance strategy (1-3 concurrently accepting tasks sharing the work, 2-4 tasks each leaving after its own share; 10 ms / 1 s between accepts; every accept future polled 0..3 times then dropped and reissued; the same at each single stream index) x select! start deviation (<=1 non-zero start in the first 10/24 polls); all distinct by construction, non-trivial (>= 1 stream)",
+        "scenario = opener (raw peer / wtransport peer) x acceptor role x stream count (1,2,3,5,9; 12 = 3x a concurrent-stream limit of 4) x uni/bidi pattern (4) x acceptance strategy (1-3 concurrently accepting tasks sharing the work, 2-4 tasks each leaving after its own share; one task that starts accepting 12 s / 25 s after the streams were opened; 10 ms / 1 s between accepts; every accept future polled 0..3 times then dropped and reissued; the same at each single stream index) x select! start deviation (<=1 non-zero start in the first 10/24 polls); all distinct by construction, non-trivial (>= 1 stream)",
     );
     rep.assume("single-threaded runtime: concurrently accepting tasks interleave at await points only");
     let scs = scenarios(args.tier);
